@@ -33,6 +33,28 @@ theorem segment_acked_iff (a0 : Nat) (h : List Pkt) (hc : conforming a0 [] h = t
     isSegmentAcked (trackerAfter a0 h) (wrap32 s) n = true ↔ SegAcked (cumAck a0 h) (allBlocks [] h) s n :=
   isSegmentAcked_iff (rep_run h (rep_init a0 true) rfl hc) s n hd
 
+/-- **Representation.** `acked_intervals()` is *the* list of maximal runs of that point set: any ascending list of
+    non-empty, non-touching closed intervals with the same points is equal to it (what `icl::first/last` iteration
+    shows is determined by the specification, not only its point set). -/
+theorem intervals_are_the_maximal_runs (a0 : Nat) (h : List Pkt) (hc : conforming a0 [] h = true) (s' : ISet)
+    (hs' : Canon s')
+    (hpts : ∀ x, ISet.mem s' x = true ↔ ∃ p, wrap32 p = x ∧ cumAck a0 h < p ∧ sacked (allBlocks [] h) p = true) :
+    (trackerAfter a0 h).ivs = s' := by
+  have hg : Good (trackerAfter a0 h) := good_run _ h ⟨wrap32_lt a0, trivial⟩
+  apply canon_ext _ _ hg.2 hs'
+  intro x
+  have h1 := (ack_refines a0 h hc).2 x
+  have h2 := hpts x
+  cases e1 : ISet.mem (trackerAfter a0 h).ivs x <;> cases e2 : ISet.mem s' x <;> try rfl
+  · exact absurd (h1.2 (h2.1 e2)) (by rw [e1]; simp)
+  · exact absurd (h2.2 (h1.1 e1)) (by rw [e2]; simp)
+
+/-- … and for *any* traffic, conforming or not, the interval list stays canonical (ascending, non-empty intervals,
+    at least one missing number between neighbours) and the ACK number stays a 32-bit number. -/
+theorem intervals_always_canonical (a0 : Nat) (b : Bool) (h : List Pkt) :
+    Good (run (Tracker.init (wrap32 a0) b) h) :=
+  good_run _ h ⟨wrap32_lt a0, trivial⟩
+
 /-- The same invariant from any tracker state that represents some observer knowledge (so the two theorems above
     also hold for a tracker that is queried and fed in any interleaving). -/
 theorem invariant_step (A : Nat) (seen : List Blk) (t : Tracker) (hr : Rep A seen t) (hs : t.useSack = true)
